@@ -123,7 +123,7 @@ func gcdClass(sc []*big.Int) string {
 	}
 }
 
-var msmScalarProfiles = []string{"hash-like", "r=0", "r=1", "r-equal", "r-one-nonzero", "r-first-zero", "r-last-zero", "r-last-two-zero", "r-odd-zero", "r-max", "S-top-slice", "even", "g=3", "g=4", "g=6", "g=8", "g=2^64", "g=3*2^100", "h-56bit", "h-112bit", "h-168bit", "r=2^127", "h=L-1"}
+var msmScalarProfiles = []string{"hash-like", "r=0", "r=1", "r-equal", "r-one-nonzero", "r-first-zero", "r-last-zero", "r-last-two-zero", "r-odd-zero", "r-max", "S-top-slice", "even", "g=3", "g=4", "g=6", "g=8", "g=2^64", "g=3*2^100", "g=2^30", "g=2^56", "g=2^60", "g=2^90", "g=2^112", "g=2^120", "h-56bit", "h-112bit", "h-168bit", "r=2^127", "h=L-1"}
 var msmPointProfiles = []string{"honest-distinct", "same-point", "pairs", "with-identity", "mixed-order", "all-torsion"}
 
 func mkMsmCase(n int, sp, pp string, rng *rt.Rng) *msmCase {
@@ -194,6 +194,17 @@ func mkMsmCase(n int, sp, pp string, rng *rt.Rng) *msmCase {
 			smallH(big.NewInt(8))
 		case "g=2^64":
 			r = new(big.Int).Mul(rnd(30), pow2(64))
+			h, S = rnd(100), rnd(90)
+		case "g=2^30", "g=2^56", "g=2^60", "g=2^90", "g=2^112", "g=2^120":
+			// the final Bos-Coster scalar is (a small odd multiple of) a power of two whose exponent is a
+			// multiple of the limb size of one of the layouts: its leading bit is the LOWEST bit of a limb
+			var k uint
+			fmt.Sscanf(sp, "g=2^%d", &k)
+			small := int64(1 + 2*(i%4))
+			if i == 0 {
+				small = 1
+			}
+			r = new(big.Int).Mul(big.NewInt(small), pow2(k))
 			h, S = rnd(100), rnd(90)
 		case "g=3*2^100":
 			r = new(big.Int).Mul(big.NewInt(int64(1+i%5)), new(big.Int).Mul(big.NewInt(3), pow2(100)))
